@@ -432,6 +432,21 @@ CLAIMS["C06"]["ties"] = (_series_tie, _tick_tie)
 CLAIMS["C06"]["technique"] += " + source-to-Gallina translator ties for the chunked series storage and for the clock step (regenerated and re-proved every run)"
 CLAIMS["C08"]["ties"] += (_tick_tie,)
 CLAIMS["C08"]["text"] += TICK_NOTE
+
+
+def _fill_tie():
+    import translated
+    return translated.fill_tie()
+
+
+FILL_NOTE = (" Translator tie (harness/py2coq_fill.py; OrderBook.change_order_volume in coq/theories/FillPy.v): Market._execute_orders is REGENERATED from /repo's source on "
+             "every run, statement by statement, and coq/translated/FillC08Proofs.v is re-checked against the generated text: on two orders of this market it IS the model's "
+             "apply_fill - refused on a stopped market and for a non-positive volume; both orders lose the volume and leave the book at zero; the step's last-trade price "
+             "becomes the price, its executed volume grows by the volume and its turnover by volume x price; mid and market price are refreshed; exactly one record with "
+             "market, time, both agents, both order ids, price and volume is reported.")
+for _p in ("C04", "C08"):
+    CLAIMS[_p]["ties"] += (_fill_tie,)
+    CLAIMS[_p]["text"] += FILL_NOTE
 CLAIMS["C06"]["text"] += TICK_NOTE
 CLAIMS["C06"]["text"] += (" Translator tie (harness/py2coq_series.py): Market._fill_until is REGENERATED from /repo's source on every run - which series is assigned, which one is "
                           "extended, whose length is measured and the padding value are read from each statement - and coq/translated/SeriesC06Proofs.v is re-checked against the "
